@@ -8,7 +8,7 @@ import lightworks as lw
 from lightworks import emulator as emu
 
 from .. import kernel, ref_fock
-from ..circuit_ops import Env, build, emulator_family
+from ..circuit_ops import Env, build, emulator_family, herald_layout_family
 
 TOL = 1e-9
 REFUSALS = (emu.ModeMismatchError, emu.PhotonNumberError, TypeError, ValueError)
@@ -59,6 +59,8 @@ def check_circuit(recipe, env, maxph, acc, late=False):
     acc.state(name)
     for k in range(0, maxph + 1):
         ins = ref_fock.basis(nv, k)
+        if not ins:             # no visible mode: only the empty state, with no photons, exists
+            continue
         # -- (a) list of all inputs, outputs=None -> full basis
         res = sim.simulate([lw.State(list(i)) for i in ins])
         acc.tick("executions"); acc.tick("transitions")
@@ -111,6 +113,10 @@ def check_circuit(recipe, env, maxph, acc, late=False):
         ("float", lambda: sim.simulate(lw.State([1.0] + good[1:]))) if nv else None,
         ("bool", lambda: sim.simulate(lw.State([True] + good[1:]))) if nv else None,
         ("not_state", lambda: sim.simulate([good])),
+        ("list_good_then_short", lambda: sim.simulate([lw.State(good), lw.State(good[:-1])])) if nv else None,
+        ("list_short_then_good", lambda: sim.simulate([lw.State(good[:-1]), lw.State(good)])) if nv else None,
+        ("list_good_then_long", lambda: sim.simulate([lw.State(good), lw.State(good + [0])], [lw.State(good)])),
+        ("outputs_good_then_short", lambda: sim.simulate(lw.State(good), [lw.State(good), lw.State(good[:-1])])) if nv else None,
         ("mixed_photon_inputs", lambda: sim.simulate([lw.State(good), lw.State([2] + good[1:])])) if nv else None,
         ("in_out_photon_mismatch", lambda: sim.simulate(lw.State(good), [lw.State([2] + good[1:])])) if nv else None,
         ("output_wrong_length", lambda: sim.simulate(lw.State(good), [lw.State(good + [0])])),
@@ -176,17 +182,28 @@ def run(tier, seed):
         return acc
 
     acc = kernel.pmap(shard_fn, kernel.interleave(fam, kernel.NPROC * 2))
+    lay = herald_layout_family(env, tier)
+
+    def shard_lay(recipes):
+        a = kernel.Acc()
+        for rc in recipes:
+            check_circuit(rc, env, 2 if tier == "quick" else 3, a)
+        return a
+
+    acc.merge(kernel.pmap(shard_lay, kernel.interleave(lay, kernel.NPROC * 2)))
     ra = kernel.Acc(); check_reuse(env, ra); acc.merge(ra)
     meta = {
         "rule": "every circuit recipe of the family (n in 2..4 x 5 loss placements incl. loss 0 and 1 x 7 herald "
-                "layouts incl. in!=out and descending declaration + internal ancillas from heralded subs) x every "
+                "layouts incl. in!=out and descending declaration + internal ancillas from heralded subs; plus EVERY "
+                "layout of <= 2 heralds on 3 modes (4 in thorough): ordered input modes x ordered output modes x photon "
+                "numbers {0,1,2}, and every mode heralded on 2 and 3 modes) x every "
                 "Fock input on the visible modes up to the photon bound (vacuum and bunched included) x call shapes "
                 "{list of all inputs/outputs None; single State x every single explicit output; 3-element output "
                 "list} + 11 invalid calls; amplitudes compared with permanent/sqrt(factorials) computed independently "
                 "(Ryser, cross-checked against the definition and a polynomial expansion). distinct_nontrivial = "
                 "(circuit, photon number) pairs with >=1 photon and a non-zero amplitude.",
         "exhaustive": True,
-        "bounds": {"circuits": len(fam), "max_visible_photons": maxph, "n_modes": [2, 3, 4]},
+        "bounds": {"circuits": len(fam), "herald_layout_circuits": len(lay), "max_visible_photons": maxph, "n_modes": [2, 3, 4]},
         "assumptions": ["U_full and heralds as reported by the circuit are the subject (their correctness is C01/C02)"],
     }
     return acc, meta
